@@ -49,7 +49,7 @@ func TestVerif_C19_CryptoHelpers(t *testing.T) {
 	secp, _, _ := crypto.GenerateSecp256k1Key(crand.Reader)
 	ed, _, _ := crypto.GenerateEd25519Key(crand.Reader)
 	keys := []crypto.PrivKey{rsa, secp, ed}
-	vacct.RapidCheck(t, vacct.N(3000, 200000), func(rt *rapid.T) {
+	vacct.RapidCheck(t, vacct.N(3000, 1500000), func(rt *rapid.T) {
 		size := rapid.SampledFrom([]int{0, 1, 11, 12, 13, 15, 16, 17, 23, 24, 25, 27, 28, 29, 31, 32, 33, 64, 200}).Draw(rt, "size")
 		data := rapid.SliceOfN(rapid.Byte(), size, size).Draw(rt, "data")
 		keyLen := rapid.SampledFrom([]int{0, 1, 15, 16, 24, 31, 32, 33}).Draw(rt, "keylen")
